@@ -345,6 +345,81 @@ Lemma first_existing_find ex l :
   first_existing ex l = find (fun c => ex (print_query c)) l.
 Proof. induction l as [|x l IH]; cbn; [reflexivity|]. destruct (ex (print_query x)); auto. Qed.
 
+(* ---------- the backends the resolution relies on ---------- *)
+(* the resolution looks at the existence of its four candidates and at nothing else *)
+Lemma resolve_ext ex ex' q :
+  (forall c, In c (candidates q) -> ex (print_query c) = ex' (print_query c)) ->
+  resolve ex q = resolve ex' q.
+Proof.
+  intro H. unfold resolve.
+  rewrite (H q), (H (with_any_rt q)), (H (with_any_role q)), (H (with_any_rt (with_any_role q)));
+    try reflexivity; unfold candidates; cbn [In]; auto.
+Qed.
+
+(* ConsulSource.Exists asks Consul for the key itself (translator cfgbackends) ... *)
+Lemma consul_exists_by_get_in_source : consul_exists_by_get = true.
+Proof. reflexivity. Qed.
+
+(* ... so it says yes exactly for the entries *)
+Lemma consul_exists_membership existing p :
+  consul_exists consul_exists_by_get existing p = is_entry existing p.
+Proof. reflexivity. Qed.
+
+Lemma consul_resolution existing q :
+  resolve (consul_exists consul_exists_by_get existing) q = first_existing (is_entry existing) (candidates q).
+Proof.
+  rewrite first_existing_find, <- resolve_is_find.
+  apply resolve_ext. intros c _. apply consul_exists_membership.
+Qed.
+
+Lemma first_existing_is_entry ex l r : first_existing ex l = Some r -> ex (print_query r) = true /\ In r l.
+Proof.
+  induction l as [|x l IH]; cbn; [discriminate|].
+  destruct (ex (print_query x)) eqn:E.
+  - intro H. inversion H; subst. auto.
+  - intro H. destruct (IH H). auto.
+Qed.
+
+Lemma consul_resolved_is_entry existing q r :
+  resolve (consul_exists consul_exists_by_get existing) q = Some r ->
+  is_entry existing (print_query r) = true /\ In r (candidates q).
+Proof. rewrite consul_resolution. apply first_existing_is_entry. Qed.
+
+(* asking Consul by key LISTING instead (prefix semantics) gives another resolution *)
+Lemma prefix_listing_differs :
+  exists existing q r,
+    resolve (consul_exists false existing) q = Some r /\ is_entry existing (print_query r) = false /\
+    resolve (consul_exists true existing) q <> Some r.
+Proof.
+  (* r/PHYSICS/any/flp1 asked; r/PHYSICS/any/flp10 and r/ANY/any/flp1 stored *)
+  exists [[114;47;80;72;89;83;73;67;83;47;97;110;121;47;102;108;112;49;48];
+          [114;47;65;78;89;47;97;110;121;47;102;108;112;49]],
+         (mkQuery [114] 1 [97;110;121] [102;108;112;49]),
+         (mkQuery [114] 1 [97;110;121] [102;108;112;49]).
+  vm_compute. repeat split; discriminate.
+Qed.
+
+(* the file backend: a folder "exists" too *)
+Definition file_resolves_entries_statement : Prop :=
+  forall existing q r, resolve (file_exists existing) q = Some r -> is_entry existing (print_query r) = true.
+
+Lemma file_resolves_entries_refuted : ~ file_resolves_entries_statement.
+Proof.
+  intro H.
+  (* c/ANY/any/t asked; only c/ANY/any/t/u stored *)
+  specialize (H [[99;47;65;78;89;47;97;110;121;47;116;47;117]]
+                (mkQuery [99] RT_ANY ROLE_ANY [116]) (mkQuery [99] RT_ANY ROLE_ANY [116])).
+  vm_compute in H. specialize (H eq_refl). discriminate.
+Qed.
+
+Lemma file_resolves_entries_partial existing q :
+  (forall c, In c (candidates q) -> is_folder existing (print_query c) = false) ->
+  resolve (file_exists existing) q = first_existing (is_entry existing) (candidates q).
+Proof.
+  intro H. rewrite first_existing_find, <- resolve_is_find.
+  apply resolve_ext. intros c Hc. unfold file_exists. rewrite (H c Hc). apply orb_false_r.
+Qed.
+
 (* ---------- templating ---------- *)
 Definition opt_app (x y : option str) : option str :=
   match x, y with Some a, Some b => Some (a ++ b) | _, _ => None end.
